@@ -96,8 +96,8 @@ Proof. exact getters_state. Qed.
 Print Assumptions C10_queue_getters_exact_state.
 
 (* The try_send2 rule, full statement, is [try_send2_prefix fx] (Proofs/UdpProofs.v):
-     forall s lens flags s' ev n,
-       udp_try_send2 fx s lens flags = (s', ev) ->
+     forall s lens flags addr s' ev n,
+       udp_try_send2 fx s lens flags addr = (s', ev) ->
        In (ETry2 (next_seq s) (length lens) n) ev -> 0 < n ->
        handed ev = seq (next_seq s) (Z.to_nat n)
    - whenever uv_udp_try_send2 returns n > 0 the datagrams handed to the OS by that call
@@ -118,9 +118,9 @@ Print Assumptions C10_try_send2_prefix_before_fix_refuted.
 
 (* The rule for batches of at most 20 datagrams holds for either arithmetic. *)
 Theorem C10_try_send2_prefix_partial :
-  forall (s : st) (lens : list N) (flags : Z) (s' : st) (ev : list event) (n : Z),
+  forall (s : st) (lens : list N) (flags : Z) (addr : nat) (s' : st) (ev : list event) (n : Z),
     (length lens <= 20)%nat ->
-    udp_try_send2 sendmsgv_fixed s lens flags = (s', ev) ->
+    udp_try_send2 sendmsgv_fixed s lens flags addr = (s', ev) ->
     In (ETry2 (next_seq s) (length lens) n) ev -> 0 < n ->
     handed ev = seq (next_seq s) (Z.to_nat n).
 Proof. exact (try_send2_prefix_small sendmsgv_fixed). Qed.
@@ -163,7 +163,7 @@ Example C10_example_send :
   forall fx,
   let tr := snd (run fx (fun _ => [OGet]) (fun _ _ => [])
                      (init false false [SErr 11; SErr 1; SRet 2; SErr 11] [] [])
-                     [OSend 5 true; OSend 6 true; OSend 7 true; ORun false true; OSend 8 true;
+                     [OSend 5 1%nat; OSend 6 1%nat; OSend 7 1%nat; ORun false true; OSend 8 1%nat;
                       OClose; ORun false false]) in
   accepts tr = true /\ handed tr = [1; 2]%nat /\
   cbs tr = [0; 1; 2; 3]%nat /\
